@@ -44,7 +44,12 @@ Definition wf_evmb (F : funs) (s : evm_st) : bool :=
 
 Definition env_sortedb (env : list authacc) : bool := sortedb (map (fun a => (aa_addr a, a)) env).
 
+(** every stored oracle pair survives the JSON codec unchanged *)
+Definition oracle_pair_keys (s : oracle_st) : list key := o_whitelist s ++ map fst (o_rates s) ++ o_pairs s.
+Definition pairs_json_fixedb (F : funs) (s : oracle_st) : bool :=
+  forallb (fun p => f_pairjson F p =? p) (oracle_pair_keys s).
+
 Definition wf_appb (F : funs) (env : list authacc) (s : app_st) : bool :=
   (match a_sudo s with Some _ => true | None => false end) &&
   wf_epochsb (a_epochs s) && wf_oracleb (a_oracle s) && wf_tfb F (a_tf s) && wf_devgasb F (a_devgas s) &&
-  wf_evmb F (a_evm s) && env_sortedb env.
+  wf_evmb F (a_evm s) && env_sortedb env && pairs_json_fixedb F (a_oracle s).
